@@ -11,13 +11,16 @@ ASSUMPTIONS = ["supported constructs only (no regex, no From/To, range bounds ar
 TRUSTED = ["lean/Luqum/Model/Es.lean (hand-written)", "python reference predicate in harness/props/c07.py (search only)"]
 
 
-def expected(d, cfg):
-    """the class of the exception the property demands, or None"""
+def expected(d, cfg, kf5=False):
+    """the class of the exception the property demands, or None (kf5: what known finding KF5 predicts)"""
     I = common.impl()
     U = I.utils
     must_default = cfg.get("default_operator", "should") != "should"
     nf = U.flatten_nested_fields_specs(U.normalize_nested_fields_specs(cfg.get("nested_fields")))
-    npref = {k.rsplit(".", 1)[0] for k in nf}
+    # a *declared* nested container is any key of the specification that has members
+    npref = set(es.declared_containers(U.normalize_nested_fields_specs(cfg.get("nested_fields"))))
+    if kf5:
+        npref = {k.rsplit(".", 1)[0] for k in nf}
     of = U.normalize_object_fields_specs(cfg.get("object_fields"))
     opref = {k.rsplit(".", 1)[0] for k in (of or [])}
     sf = U.normalize_object_fields_specs(cfg.get("sub_fields"))
@@ -62,14 +65,14 @@ def expected(d, cfg):
     return "OrAndAndOnSameLevel" if mix(d) else None
 
 
-def cases(ctx, n, **tgkw):
+def cases(ctx, n, multi_match=True, **tgkw):
     rng = ctx.rng
     out = []
     schema = None
     for i in range(n):
         if schema is None or rng.random() < 0.25:
             schema = es.gen_schema(rng)
-        cfg = es.gen_cfg(rng, schema)
+        cfg = es.gen_cfg(rng, schema, multi_match)
         d = common.normalize(es.EsTreeGen(rng, schema, **tgkw).tree(rng.choice([1, 2, 3, 4])))
         out.append((schema, cfg, d))
     return out
@@ -103,6 +106,9 @@ def run(ctx):
                  if got else None)
         ctx.count(got or "translated")
         if got != exp:
+            explained = ["KF5"] if expected(d, cfg, kf5=True) == got and \
+                es.containers_without_direct_leaf(common.impl().utils.normalize_nested_fields_specs(
+                    cfg.get("nested_fields"))) else []
             ctx.fail("the builder %s but the property demands %s" % (
                 "raises " + got if got else "translates the query", exp or "a translation"),
-                {"cfg": cfg, "tree": d, "got": r.get("err")})
+                {"cfg": cfg, "tree": d, "got": r.get("err"), "explained_by": explained})
